@@ -35,7 +35,7 @@ def shards(tier, seed):
     if tier == "quick":
         cfgs = [(2, 1), (3, 1), (2, 2)]
     else:
-        cfgs = [(2, 1), (3, 1), (2, 2), (4, 1), (3, 2), (2, 3)]
+        cfgs = [(2, 1), (3, 1), (2, 2), (4, 1)]
     return [{"N": n, "D": d} for n, d in cfgs]
 
 
